@@ -35,7 +35,8 @@ type PropCfg struct {
 	ExtraSteps []string     `json:"extra_steps"` // further step functions (BeginBlock) that must be tagged or frame-free
 	Exempt     map[string]string `json:"exempt"`  // handler (short name) -> reason why it carries no obligation of this property
 	Functions  []string     `json:"functions"`  // additional functions that must be under contract and verified
-	Bounded    []string     `json:"bounded"`    // names of bounded stand-ins (thorough tier)
+	Bounded    []string     `json:"bounded"`    // names of bounded stand-ins (both tiers)
+	Conformance []string    `json:"conformance"` // bounded conformance runs of assumed contracts (thorough tier only)
 	Det        *DetCfg      `json:"determinism"` // C10: static effect/determinism analysis
 	DeleteOnly []string     `json:"delete_only"` // tables in which step functions may delete rows (static obligation over the SSA call graph)
 	Lemmas     []string     `json:"lemmas"`     // SMT-LIB lemma files (spec/lemmas): every check-sat must be unsat
@@ -666,7 +667,12 @@ func cmdCheck(args []string) {
 	}
 	// bounded stand-ins (never counted as discharged proof obligations)
 	var boundedRes []boundedResult
-	for _, bn := range cfg.Bounded {
+	bnames := append([]string(nil), cfg.Bounded...)
+	if *tier == "thorough" {
+		// conformance runs of assumed contracts against the real libraries (bounded, thorough tier only)
+		bnames = append(bnames, cfg.Conformance...)
+	}
+	for _, bn := range bnames {
 		br := runBounded(bn)
 		boundedRes = append(boundedRes, br)
 		if br.Status != "ok" {
